@@ -1113,8 +1113,78 @@ func runC11(e *Env) {
 		failEdgeReturnsError(e, p, "E3.nnp.before", "LoadFilter/prctl-error", c, false)
 	}
 	// on the false edge no prctl: every path to seccomp passes either the true edge + call, or the false edge without call: implied by control dependence above plus "no other prctl-reaching call"
+	checkPrctlMust(e, m, pc)
 	checkPrctlArgs(e, m)
 	checkPin(e, m, pc, sc)
+}
+
+// checkPrctlMust (E3.nnp.must): a nil result of the call that LoadFilter makes to set no_new_privs means the raw prctl
+// really ran on this thread and succeeded: every function between LoadFilter and the raw system call returns nil only
+// behind the checked success of the next one (no cached "already done" answer, no skipped call).
+func checkPrctlMust(e *Env, m *loaderModel, pc []*ssa.Call) {
+	r := e.R
+	p := m.p
+	var site *rawSite
+	for _, s := range m.sites {
+		if s.name == "prctl" {
+			site = s
+		}
+	}
+	if site == nil {
+		return
+	}
+	// the wrapper: nil only under errno == 0 of the raw call
+	errno := flow.ResultN(site.call, 2)
+	n := 0
+	for _, ret := range flow.Returns(site.fn) {
+		rs := flow.RetResults(ret)
+		ev := rs[len(rs)-1]
+		if !flow.IsNilConst(ev) && !flow.KnownNilError(ev, ret.Block()) {
+			// non-nil or the errno itself: fine when it is the errno or provably non-nil
+			if mi, ok := ev.(*ssa.MakeInterface); ok && errno != nil && mi.X == errno {
+				// returns the errno converted to error: nil never (Errno(0) is a non-nil interface); accepted only under errno != 0
+			}
+			if flow.KnownNonNilError(ev, ret.Block()) {
+				continue
+			}
+		}
+		n++
+		good := false
+		for _, cd := range flow.DomConds(ret.Block()) {
+			pr, ok := flow.AsIntPred(cd.V, cd.Pol)
+			if ok && errno != nil && flow.StripConv(pr.X) == errno && pr.OnlyZero() {
+				good = true
+			}
+		}
+		r.Check(good, "E3.nnp.must", load.FuncName(site.fn)+"/nil-only-after-success", p.Pos(ret.Pos()),
+			"the prctl wrapper returns nil only when the raw call's errno is 0", "the prctl wrapper can return nil without the raw prctl having succeeded")
+	}
+	r.Floor("E3.nnp.must(nil returns of the wrapper)", n, 1)
+	isWrapper := func(c *ssa.Call) bool { return flow.Callee(c) == site.fn }
+	seen := map[*ssa.Function]bool{site.fn: true}
+	var walk func(f *ssa.Function, depth int)
+	walk = func(f *ssa.Function, depth int) {
+		if f == nil || seen[f] || depth > 4 || len(f.Blocks) == 0 {
+			return
+		}
+		seen[f] = true
+		r.Check(establishes(f, isWrapper, 0), "E3.nnp.must", load.FuncName(f)+"/nil-only-after-prctl", p.Pos(f.Pos()),
+			"returns nil only behind the checked success of the prctl wrapper: a nil result means the bit was set on the calling thread by this call",
+			load.FuncName(f)+" can return nil without having called prctl on the calling thread (for example because an earlier success is remembered): no_new_privs is a per-thread attribute, so the thread that calls seccomp(2) may not have it and an unprivileged load fails with EACCES")
+		for _, c := range flow.Calls(f) {
+			if call, ok := c.(*ssa.Call); ok {
+				cal := flow.Callee(call)
+				if cal != nil && cal != site.fn && reachesFn(cal, site.fn, map[*ssa.Function]bool{}) {
+					walk(cal, depth+1)
+				}
+			}
+		}
+	}
+	for _, c := range pc {
+		if cal := flow.Callee(c); cal != site.fn {
+			walk(cal, 0)
+		}
+	}
 }
 
 // checkPrctlArgs resolves the five arguments of the raw prctl site through the variadic copy.
